@@ -309,8 +309,7 @@ def run_concrete(ctx, fn, args):
                 if const_of(x) is not None:
                     return F.const(bisect.bisect_left(arr, const_of(x)))
         return NotImplemented
-    params = [x.arg for x in fn.args.posonlyargs + fn.args.args]
-    R = Run(ctx, fn, DSP, pins=dict(zip(params, args)), call=hook, run=False)
+    R = Run(ctx, fn, DSP, pins=dict(args), call=hook, run=False)
     R.sh.concrete = True
     R.ev.run(fn.body)
     return R.ret()
@@ -427,7 +426,10 @@ def r5_fixtime(ctx):
         tab = ev.sh.notes
         n = sum(1 for x in tab if isinstance(x, tuple) and x[0] == "search")
         A, V_ = F.sym(f"@A{n}"), F.sym(f"@V{n}")
-        tab.append(("search", A, a, V_, v, ev.fn.name if ev.fn is not None else None))
+        params = [x.arg for x in ev.fn.args.posonlyargs + ev.fn.args.args + ev.fn.args.kwonlyargs] if ev.fn is not None else []
+        pa = next((k for k in params if israt(ev.env.get(k)) and eq(ev.env[k], a)), None)
+        pv = next((k for k in params if israt(ev.env.get(k)) and eq(ev.env[k], v)), None)
+        tab.append(("search", A, a, V_, v, (ev.fn.name, pa, pv) if ev.fn is not None else None))
         for k, x in list(ev.env.items()):
             if israt(x) and eq(x, v):
                 ev.env[k] = V_
@@ -445,6 +447,11 @@ def r5_fixtime(ctx):
 
         def make(oracle):
             R = Run(ctx, fn, DSP, pins=pins, facts=facts, oracle=oracle, exclude=exclude, call=search_hook, run=False)
+            for nm_ in dup:
+                defs = [f for q, f in mod.funcs.items() if q.split("#")[0] == nm_ and "." not in q]
+                flat = [f for f in defs if not any(isinstance(x, (ast.For, ast.While)) for x in ast.walk(f))]
+                if flat and nm_ in R.sh.inline:
+                    R.sh.inline[nm_] = flat[0]          # of several definitions of a helper the vectorised one has a closed form; the others are executed on the worlds
             R.sh.inline_policy = policy
             R.sh.elementwise_where = True
             R.sh.on_unknown = lambda node, ev: hook(node, ev, True)
@@ -711,34 +718,37 @@ def r5_fixtime(ctx):
         names = set()
         for r in info[key]:
             used = {S._strsym(x) for pos in r["ss"] for x in pos[:2]}
-            for _s, A, a, V_, v, fname in r["table"]:
-                if fname in dup and S._strsym(A) in used:
-                    names.add(fname)          # the function that makes the search the index comes from has several definitions
-        for nm in sorted(names):
+            for _s, A, a, V_, v, where_ in r["table"]:
+                if where_ is not None and where_[0] in dup and S._strsym(A) in used and where_[1] and where_[2]:
+                    names.add(where_)          # the function that makes the search the index comes from has several definitions
+        for nm, pa, pv in sorted(names):
             for q, f in mod.funcs.items():
                 if q.split("#")[0] == nm and "." not in q:
-                    twins.append((q, f, want))
-    for q, f, want in twins:
+                    twins.append((q, f, want, pa, pv))
+    for q, f, want, pa, pv in twins:
         ctx.src.funcs_consulted.add(f"{DSP}:{q}")
         bad = unk = None
         for A, ts in worlds():
             ts = [t for t in ts if not (want is previous and t in A)]
             tup = lambda xs: PyTuple(F.const(x) for x in xs)      # noqa
-            got = run_concrete(ctx, f, [tup(A), tup(ts)])
+            params = [x.arg for x in f.args.posonlyargs + f.args.args]
+            if pa not in params or pv not in params:
+                unk = f"the parameters {pa}, {pv} of the definition followed are not parameters of this one"
+                break
+            got = run_concrete(ctx, f, {pa: tup(A), pv: tup(ts)})
             if isinstance(got, tuple) and len(got) == len(ts) and all(int_of(x) is not None for x in got):
                 res = [int_of(x) for x in got]
             else:
                 # vectorised numpy code: the closed form, element by element
                 R = Run(ctx, f, DSP)
                 E = R.ret()
-                params = [x.arg for x in f.args.posonlyargs + f.args.args]
-                if E is None or is_unknown(E) or not israt(E) or len(params) < 2:
+                if E is None or is_unknown(E) or not israt(E):
                     unk = _short(got)
                     break
                 res = []
                 for t in ts:
                     try:
-                        g = Conc({params[0]: A, params[1]: t}).val(E)
+                        g = Conc({pa: A, pv: t}).val(E)
                     except OutOfRange as e:
                         bad = {"old times": [str(x) for x in A], "new time": str(t), "selected": str(e)}
                         break
